@@ -294,6 +294,57 @@ theorem group_ne_nil (h : IsMutual adj mu n) {g : List Nat}
   have han := (mem_reps.1 har).1
   exact List.ne_nil_of_mem (mem_comp.2 ⟨han, h.refl han⟩)
 
+/-- The groups of the sequence are pairwise different (as lists). -/
+theorem sequenceOf_flatten_nodup (h : IsMutual adj mu n) :
+    (sequenceOf adj mu n).flatten.Nodup := by
+  rw [sequenceOf_flatten]
+  have hnd : (stagesOf adj mu n).flatten.Nodup :=
+    (stagesOf_flatten_perm h).nodup_iff.2 reps_nodup
+  apply List.Nodup.map_on ?_ hnd
+  intro a ha b hb hab
+  have har : a ∈ reps mu n := (stagesOf_flatten_perm h).mem_iff.1 ha
+  have hbr : b ∈ reps mu n := (stagesOf_flatten_perm h).mem_iff.1 hb
+  have han := (mem_reps.1 har).1
+  have : a ∈ comp mu n b := by rw [← hab]; exact mem_comp.2 ⟨han, h.refl han⟩
+  exact rep_unique h har hbr (h.refl han) (mem_comp.1 this).2
+
+/-- Members of two different groups are not mutually reachable. -/
+theorem not_mutual_of_ne (h : IsMutual adj mu n) {g g' : List Nat}
+    (hg : g ∈ (sequenceOf adj mu n).flatten) (hg' : g' ∈ (sequenceOf adj mu n).flatten)
+    {i j : Nat} (hi : i ∈ g) (hj : j ∈ g') (hne : g ≠ g') : mu i j = false := by
+  by_contra hc
+  exact hne (group_eq_of_mutual h hg hg' hi hj (by simpa using hc))
+
+/-- The flattened sequence is a topological order of the groups: no edge goes from a group to a
+    group listed before it. -/
+theorem sequenceOf_topological (h : IsMutual adj mu n) :
+    (sequenceOf adj mu n).flatten.Pairwise (fun b c => ∀ j ∈ b, ∀ i ∈ c, adj i j = false) := by
+  have hnd := sequenceOf_flatten_nodup h
+  rw [List.pairwise_flatten]
+  constructor
+  · intro st hst
+    obtain ⟨s, hs, rfl⟩ := List.getElem_of_mem hst
+    have hstnd : ((sequenceOf adj mu n)[s]).Nodup :=
+      (List.nodup_flatten.1 hnd).1 _ (List.getElem_mem hs)
+    refine List.Pairwise.imp_of_mem ?_ hstnd
+    intro b c hb hc hbc j hj i hi
+    have hbf : b ∈ (sequenceOf adj mu n).flatten := List.mem_flatten.2 ⟨_, List.getElem_mem hs, hb⟩
+    have hcf : c ∈ (sequenceOf adj mu n).flatten := List.mem_flatten.2 ⟨_, List.getElem_mem hs, hc⟩
+    exact same_stage_no_adj h hs hc hb hi hj (not_mutual_of_ne h hcf hbf hi hj (Ne.symm hbc))
+  · rw [List.pairwise_iff_getElem]
+    intro s t hs ht hst b hb c hc j hj i hi
+    have hbf : b ∈ (sequenceOf adj mu n).flatten := List.mem_flatten.2 ⟨_, List.getElem_mem hs, hb⟩
+    have hcf : c ∈ (sequenceOf adj mu n).flatten := List.mem_flatten.2 ⟨_, List.getElem_mem ht, hc⟩
+    have hbc : c ≠ b := by
+      rintro rfl
+      have hdisj := (List.nodup_flatten.1 hnd).2
+      have := (List.pairwise_iff_getElem.1 hdisj) s t hs ht hst
+      exact this hb hc
+    by_contra hadj
+    have := stage_lt_of_adj h ht hs hc hb hi hj (by simpa using hadj)
+      (not_mutual_of_ne h hcf hbf hi hj hbc)
+    omega
+
 end
 
 /-! ### The instance used by `CouplingStructure`: `sequence ds` -/
